@@ -123,18 +123,28 @@ func factTotal() {
 	// --- transform/flatten_mangler.go populateStruct / Unmangle / Mangle ---
 	fm := parse("transform/flatten_mangler.go")
 	rebuild, assignable, canSet := false, false, 0
+	leafAssignable, valueStruct := false, false
 	nilGuards := 0
 	if fd := funcDecl(fm, "populateStruct"); fd != nil {
 		ast.Inspect(fd, func(n ast.Node) bool {
 			switch x := n.(type) {
 			case *ast.ForStmt:
-				if x.Cond != nil && src(x.Cond) == "t.Kind() == reflect.Ptr && t.Elem().Kind() == reflect.Ptr" && anyContains(callsIn(x.Body), "reflect.New(setVal.Type())") {
+				// every declared pointer level is allocated with its declared pointee type and converted to the declared
+				// (possibly named) pointer type: **T (repair 6055e5a) and *P with `type P *T` (repair of P03)
+				calls := callsIn(x.Body)
+				if anyContains(calls, "reflect.New(ptrTypes[i].Elem())") && anyContains(calls, "setVal.Convert(ptrTypes[i])") {
 					rebuild = true
 				}
 			case *ast.IfStmt:
 				c := src(x.Cond)
 				if c == "!vs[inputIndex].Value.Type().AssignableTo(nestedVal.Type())" {
 					assignable = true
+				}
+				if c == "!val.Type().AssignableTo(originalVal.Type())" {
+					leafAssignable = true
+				}
+				if c == "len(ptrTypes) == 0" && len(x.Body.List) == 1 && src(x.Body.List[0]) == "setVal = setVal.Elem()" {
+					valueStruct = true
 				}
 				if c == "!isNil(vs[inputIndex].Value)" || c == "!isNil(val)" {
 					if anyContains(callsIn(x.Body), ".Set(") {
@@ -149,7 +159,7 @@ func factTotal() {
 		})
 	}
 	if !rebuild {
-		miss("F21g", "transform/flatten_mangler.go populateStruct: the loop rebuilding the outer pointer levels of **T before originalVal.Set (repair 6055e5a)")
+		miss("F21g", "transform/flatten_mangler.go populateStruct: the loop rebuilding every declared pointer level (reflect.New(ptrTypes[i].Elem()), setVal.Convert(ptrTypes[i])) before originalVal.Set (repairs 6055e5a, P03)")
 	}
 	if nilGuards != 2 {
 		miss("F21h", "transform/flatten_mangler.go populateStruct: both Set calls on leaves guarded by `if !isNil(…)`")
@@ -157,9 +167,17 @@ func factTotal() {
 	if !assignable {
 		miss("F21i", "transform/flatten_mangler.go populateStruct: AssignableTo check before nestedVal.Set")
 	}
-	emit("/-- F21g: populateStruct rebuilds every outer pointer level of a **T field before Set (repaired defect D18) -/\ndef populateRebuildsPtrLevels : Bool := %v\n\n", rebuild)
+	emit("/-- F21g: populateStruct rebuilds every pointer level of a **T / *P field from the declared types before Set (repaired defects D18, P03) -/\ndef populateRebuildsPtrLevels : Bool := %v\n\n", rebuild)
 	emit("/-- F21h: number of leaf Set calls in populateStruct guarded by `!isNil(value)` (both are) -/\ndef populateNilGuards : Nat := %d\n\n", nilGuards)
 	emit("/-- F21i: populateStruct checks AssignableTo before setting a nested leaf -/\ndef populateChecksAssignable : Bool := %v\n\n", assignable)
+	if !leafAssignable {
+		miss("F21q", "transform/flatten_mangler.go populateStruct: AssignableTo check (error) before originalVal.Set of a top-level leaf (repair of P11)")
+	}
+	if !valueStruct {
+		miss("F21r", "transform/flatten_mangler.go populateStruct: `if len(ptrTypes) == 0 { setVal = setVal.Elem() }` (a struct held by value: repair of P02)")
+	}
+	emit("/-- F21q: populateStruct checks AssignableTo (an error) before setting a top-level leaf (repaired defect P11) -/\ndef populateLeafChecksAssignable : Bool := %v\n\n", leafAssignable)
+	emit("/-- F21r: populateStruct stores the struct itself when the field is not a pointer (repaired defect P02) -/\ndef populateValueStruct : Bool := %v\n\n", valueStruct)
 	emit("/-- F21j: populateStruct checks CanSet on the value it is about to set (struct and nested leaf) -/\ndef populateCanSetChecks : Nat := %d\n\n", canSet)
 	countCheck, nilable := false, false
 	if fd := methodDecl(fm, "FlattenMangler", "Unmangle"); fd != nil {
@@ -236,16 +254,159 @@ func factTotal() {
 	emit("/-- F21n: ReverseTranslate checks ConvertibleTo before Convert-ing the unmangled value to the original field type -/\ndef reverseChecksConvertible : Bool := %v\n\n", convCheck)
 	emit("/-- F21o: ReverseTranslate uses FieldByIndexErr (no panic on a nil embedded pointer) -/\ndef reverseFieldByIndexErr : Bool := %v\n\n", idxErr)
 
-	// --- sources/env/env.go: the explicit panic on an empty tag (modelled: `.panic \"empty dialsenv tag\"`) ---
+	// --- sources/env/env.go: an empty tag is an error (repair of P05; it was an explicit panic) ---
 	ev := parse("sources/env/env.go")
-	envPanic := false
+	envErr := false
 	if fd := methodDecl(ev, "Source", "Value"); fd != nil {
 		ast.Inspect(fd, func(n ast.Node) bool {
-			if is, ok := n.(*ast.IfStmt); ok && src(is.Cond) == `envTagVal == ""` && anyContains(callsIn(is.Body), "panic(") {
-				envPanic = true
+			if is, ok := n.(*ast.IfStmt); ok && src(is.Cond) == `envTagVal == ""` && !anyContains(callsIn(is.Body), "panic(") && len(is.Body.List) == 1 {
+				if r, ok := is.Body.List[0].(*ast.ReturnStmt); ok && len(r.Results) == 2 && src(r.Results[0]) == "reflect.Value{}" && strings.HasPrefix(src(r.Results[1]), "fmt.Errorf(") {
+					envErr = true
+				}
 			}
 			return true
 		})
 	}
-	emit("/-- F21p: env.Source.Value panics explicitly on an empty dialsenv tag (the model's `.panic \"empty dialsenv tag\"`; finding D24) -/\ndef envPanicsOnEmptyTag : Bool := %v\n\n", envPanic)
+	if !envErr {
+		miss("F21p", "sources/env/env.go Value: `if envTagVal == \"\" { return reflect.Value{}, fmt.Errorf(…) }` (an error, not a panic: repair of P05)")
+	}
+	emit("/-- F21p: env.Source.Value returns an error for an empty dialsenv tag (the model's `.err \"empty dialsenv tag\"`; repaired defect P05) -/\ndef envErrorsOnEmptyTag : Bool := %v\n\n", envErr)
+
+	// --- transform/string_casting_mangler.go Unmangle: kind guard before Type.Elem (repair of P02), boxing as the named pointer type (P11) ---
+	elemGuard2, boxNamed := false, false
+	if fd := methodDecl(sc, "StringCastingMangler", "Unmangle"); fd != nil {
+		ast.Inspect(fd, func(n ast.Node) bool {
+			switch x := n.(type) {
+			case *ast.SwitchStmt:
+				if x.Tag == nil || src(x.Tag) != "sf.Type.Kind()" {
+					return true
+				}
+				okElem, okDefault := false, false
+				for _, st := range x.Body.List {
+					cc := st.(*ast.CaseClause)
+					body := ""
+					for _, b := range cc.Body {
+						body += src(b) + ";"
+					}
+					if cc.List == nil {
+						okDefault = !strings.Contains(body, ".Elem()") && strings.Contains(body, "return reflect.Value{}, fmt.Errorf(")
+					} else if strings.Contains(body, "castTo = sf.Type.Elem()") {
+						ks := ""
+						for _, e := range cc.List {
+							ks += src(e) + ","
+						}
+						okElem = ks == "reflect.Ptr,reflect.Array,reflect.Chan,"
+					}
+				}
+				elemGuard2 = okElem && okDefault
+			case *ast.AssignStmt:
+				if len(x.Lhs) == 1 && src(x.Lhs[0]) == "parsed" && src(x.Rhs[0]) == "boxed.Convert(sf.Type)" {
+					boxNamed = true
+				}
+			}
+			return true
+		})
+	}
+	if !elemGuard2 {
+		miss("F21s", "transform/string_casting_mangler.go Unmangle: Type.Elem only for pointer / array / chan kinds, an error for every other non-slice, non-map kind (repair of P02)")
+	}
+	if !boxNamed {
+		miss("F21t", "transform/string_casting_mangler.go Unmangle: `parsed = boxed.Convert(sf.Type)` (user-defined pointer types: repair of P11)")
+	}
+	emit("/-- F21s: the string-cast mangler calls Type.Elem only on pointer / array / chan kinds and returns an error for a kind without element type (the model's `hasElemTy` guard; repaired defect P02) -/\ndef stringCastElemGuard : Bool := %v\n\n", elemGuard2)
+	emit("/-- F21t: the string-cast mangler boxes a parsed scalar as the field's user-defined pointer type (repaired defect P11) -/\ndef stringCastBoxesNamedPtr : Bool := %v\n\n", boxNamed)
+
+	// --- flag / pflag sources: kind guard before IsNil, ConvertibleTo before Convert, name / shorthand checks (repairs of P02, P04, P06, P07) ---
+	kindGuards, convGuards := 0, 0
+	for _, rel := range []string{"sources/flag/flag.go", "sources/pflag/pflag.go"} {
+		if fd := methodDecl(parse(rel), "Set", "Value"); fd != nil {
+			ast.Inspect(fd, func(n ast.Node) bool {
+				switch x := n.(type) {
+				case *ast.SwitchStmt:
+					if x.Tag != nil && src(x.Tag) == "ffield.Kind()" && len(x.Body.List) == 2 {
+						c0, c1 := x.Body.List[0].(*ast.CaseClause), x.Body.List[1].(*ast.CaseClause)
+						if len(c0.List) == 4 && len(c0.Body) == 0 && c1.List == nil && anyContains(callsIn(c1), "fmt.Errorf(") {
+							kindGuards++
+						}
+					}
+				case *ast.IfStmt:
+					if strings.Contains(src(x.Cond), "ConvertibleTo(stripTypePtr(ffield.Type()))") && strings.HasPrefix(src(x.Cond), "!") || strings.Contains(src(x.Cond), "|| !fval.Type().Elem().ConvertibleTo(stripTypePtr(ffield.Type()))") {
+						if anyContains(callsIn(x.Body), "fmt.Errorf(") {
+							convGuards++
+						}
+					}
+				}
+				return true
+			})
+		}
+	}
+	if kindGuards != 2 {
+		miss("F21u", "sources/flag/flag.go and sources/pflag/pflag.go Value: `switch ffield.Kind()` guard (error) before ffield.IsNil() (repair of P02)")
+	}
+	if convGuards != 2 {
+		miss("F21v", "sources/flag/flag.go and sources/pflag/pflag.go Value: ConvertibleTo check (error) before Convert (repair of P04)")
+	}
+	emit("/-- F21u: number of flag sources (flag, pflag) whose Value checks the field's kind before IsNil (repaired defect P02) -/\ndef flagKindGuards : Nat := %d\n\n", kindGuards)
+	emit("/-- F21v: number of flag sources whose Value checks ConvertibleTo before Convert (repaired defect P04) -/\ndef flagConvertGuards : Nat := %d\n\n", convGuards)
+	nameCheck, shortCheck := false, false
+	if fd := methodDecl(parse("sources/flag/flag.go"), "Set", "registerFlags"); fd != nil {
+		nameCheck = anyContains(callsIn(fd), "checkFlagName(name)")
+	}
+	if fd := methodDecl(parse("sources/pflag/pflag.go"), "Set", "registerFlags"); fd != nil {
+		ast.Inspect(fd, func(n ast.Node) bool {
+			if is, ok := n.(*ast.IfStmt); ok && src(is.Cond) == "len(shorthand) > 1" && anyContains(callsIn(is.Body), "fmt.Errorf(") {
+				shortCheck = true
+			}
+			return true
+		})
+	}
+	if !nameCheck {
+		miss("F21w", "sources/flag/flag.go registerFlags: checkFlagName(name) before the flag is registered (repair of P06)")
+	}
+	if !shortCheck {
+		miss("F21x", "sources/pflag/pflag.go registerFlags: `if len(shorthand) > 1 { return fmt.Errorf(…) }` (repair of P07)")
+	}
+	emit("/-- F21w: the flag source checks the flag name (leading '-', '=') before registering it (repaired defect P06) -/\ndef flagNameChecked : Bool := %v\n\n", nameCheck)
+	emit("/-- F21x: the pflag source rejects a shorthand longer than one character with an error (repaired defect P07) -/\ndef pflagShorthandChecked : Bool := %v\n\n", shortCheck)
+
+	// --- anonymous flatten: only structs are hoisted (repair of P08); alias copy is not embedded (P10); third-party parsers recovered (P09, P14) ---
+	anonGuards := 0
+	af := parse("transform/anonymous_flatten_mangler.go")
+	for _, name := range []string{"Mangle", "Unmangle"} {
+		if fd := methodDecl(af, "AnonymousFlattenMangler", name); fd != nil {
+			ast.Inspect(fd, func(n ast.Node) bool {
+				if is, ok := n.(*ast.IfStmt); ok && src(is.Cond) == "sf.Type.Elem().Kind() != reflect.Struct" {
+					anonGuards++
+				}
+				return true
+			})
+		}
+	}
+	if anonGuards != 2 {
+		miss("F21y", "transform/anonymous_flatten_mangler.go Mangle and Unmangle: `if sf.Type.Elem().Kind() != reflect.Struct` pass-through for embedded pointers to non-structs (repair of P08)")
+	}
+	emit("/-- F21y: AnonymousFlattenMangler passes embedded pointers to non-structs through, in Mangle and in Unmangle (repaired defect P08) -/\ndef anonFlattenStructGuards : Nat := %d\n\n", anonGuards)
+	aliasNotEmbedded := false
+	if fd := methodDecl(am, "AliasMangler", "Mangle"); fd != nil {
+		ast.Inspect(fd, func(n ast.Node) bool {
+			if as, ok := n.(*ast.AssignStmt); ok && len(as.Lhs) == 1 && src(as.Lhs[0]) == "aliasField.Anonymous" && src(as.Rhs[0]) == "false" {
+				aliasNotEmbedded = true
+			}
+			return true
+		})
+	}
+	if !aliasNotEmbedded {
+		miss("F21z", "transform/alias_mangler.go Mangle: `aliasField.Anonymous = false` (repair of P10)")
+	}
+	emit("/-- F21z: the alias copy of an embedded field is not embedded (repaired defect P10) -/\ndef aliasCopyNotEmbedded : Bool := %v\n\n", aliasNotEmbedded)
+	recovers := 0
+	for _, rel := range []string{"decoders/toml/toml.go", "decoders/cue/cue.go"} {
+		if fd := funcDecl(parse(rel), "Decode"); fd != nil && anyContains(callsIn(fd), "recover()") {
+			recovers++
+		}
+	}
+	if recovers != 2 {
+		miss("F21aa", "decoders/toml/toml.go and decoders/cue/cue.go Decode: recover() around the third-party parser (repairs of P09, P14)")
+	}
+	emit("/-- F21aa: number of decoders (toml, cue) that recover a panic of the third-party parser into an error (repaired defects P09, P14) -/\ndef decodersRecover : Nat := %d\n\n", recovers)
 }
